@@ -11,7 +11,7 @@ LEVEL = "exploration"
 FLAVORS = ["asan"]
 RULE = ("12-tick histories over 3-5 cgroups (usage, file/anon split, memory.min/high/max, swap limits and usage up a two-level hierarchy, "
         "`some` pressure averages and growing totals), every senpai argument randomised, both modes, with/without memory.reclaim and "
-        "memory.high.tmp, cgroups removed / re-created between ticks, limits changed behind senpai's back; every write(2) of the plugin "
+        "memory.high.tmp, cgroups removed / re-created between ticks, limits changed behind senpai's back, senpai's own writes failing (EAGAIN/EBUSY/EINTR/short); every write(2) of the plugin "
         "is checked: target file in {memory.high, memory.high.tmp, memory.reclaim} of a cgroup matched by `cgroup` (or vm.swappiness when "
         "modulate_swappiness, restored by the last write of the tick); classic mode: value == memory.current (start/restart) or 4 KiB "
         "aligned, > floor-4096 and <= ceiling unless floor > ceiling; the first write to a new incarnation is a start value; immediate "
@@ -115,6 +115,15 @@ def cases(seed, tier):
         proc = W.proc(mem_total_kb=mem_total_kb, swap_entries=((swap_kb, rng.choice([0, swap_kb // 2, swap_kb * 9 // 10])),) if swap_kb else (),
                       swappiness=rng.choice([0, 60, 100]))
         scn = KG.base_scn(cid, cgs, cfg, ticks=ticks, proc=proc)
+        targeted = immediate and args.get("modulate_swappiness") == "true" and rng.random() < 0.6
+        if targeted or rng.random() < 0.2:
+            # the kernel refuses or interrupts senpai's writes now and then (EAGAIN from memory.reclaim is routine)
+            fn = rng.choice(["memory.reclaim", "memory.high", "memory.high.tmp", "swappiness"])
+            if targeted:
+                # fail exactly the write this configuration reclaims with, while swappiness is modulated
+                fn = "memory.reclaim" if reclaim else ("memory.high.tmp" if tmp else "memory.high")
+            scn["write_faults"] = [dict(file=fn, **rng.choice([{"errno": "EAGAIN"}, {"errno": "EBUSY"}, {"errno": "EINTR", "count": 2},
+                                                               {"errno": "EAGAIN", "count": 3}, {"short": True}]))]
         yield core.Case(cid, [scn], {"args": args, "immediate": immediate, "tmp": tmp, "reclaim": reclaim})
 
 
@@ -158,13 +167,35 @@ def judge(case, results):
         snap = w.snapshot()
         view = CG.View(snap, params)
         matched = set(P.resolve_many(pats, snap.dirs()))
-        writes = [e for e in evs if e.get("ev") == "write" and e["path"] != "/kmsg"]
+        raw_writes = [e for e in evs if e.get("ev") == "write" and e["path"] != "/kmsg"]
+        # a short write is completed by the following write(s) to the same file: judge the text as a whole
+        writes = []
+        for e in raw_writes:
+            if writes and writes[-1].get("_short") and writes[-1]["path"] == e["path"]:
+                prev = writes[-1]
+                prev["data"] = prev["data"][:prev["_done"]] + e["data"]
+                if e.get("fault") == "short":
+                    prev["_done"] = prev["_done"] + len(e["data"]) // 2
+                else:
+                    prev.pop("_short")
+                    if "fault" in e:
+                        prev["fault"] = e["fault"]
+                continue
+            e = dict(e)
+            if e.get("fault") == "short":
+                e["_short"] = True
+                e["_done"] = len(e["data"]) // 2
+                e.pop("fault")
+            writes.append(e)
         orig_sw = snap.proc.get("sys/vm/swappiness", "").strip()
         sw_writes = [e for e in writes if e["path"] == "/proc/sys/vm/swappiness"]
         if sw_writes:
             if not K.parse_bool(args.get("modulate_swappiness")):
                 v.bad("swappiness-write", "not-requested", "tick %d: wrote swappiness %r without modulate_swappiness" % (ti, sw_writes[0]["data"]))
-            if sw_writes[-1]["data"].strip() != orig_sw:
+            ok_sw = [e for e in sw_writes if "fault" not in e or e.get("fault") == "short"]
+            if scn.get("write_faults") and scn["write_faults"][0]["file"] == "swappiness":
+                v.count("swappiness_write_faulted")  # the restore itself was made to fail: nothing to demand
+            elif sw_writes[-1]["data"].strip() != orig_sw:
                 v.bad("swappiness-not-restored", "", "tick %d: swappiness writes %s, original %s" % (ti, [e["data"] for e in sw_writes], orig_sw))
             v.count("swappiness_writes", len(sw_writes))
         pending_poke = {}
@@ -182,14 +213,17 @@ def judge(case, results):
             if rel not in matched:
                 v.bad("write-unmatched-cgroup", fn, "tick %d: wrote %s of %s, which `cgroup=%s` does not match (%s)" % (ti, fn, rel, args["cgroup"], sorted(matched)))
                 continue
+            if "fault" in e:
+                v.count("failed_writes")
+                continue  # the write did not take effect; nothing to judge about its value
             judged += 1
             cur = view.current(rel)
             floor, ceil_ = floor_ceiling(view, rel, args, m["tmp"])
             val = int(e["data"].split()[0])
             inc = (rel, snap.cg[rel]["gen"])
             # keep the model file in sync with what the kernel would now show
-            if fn != "memory.reclaim":
-                w.cg[rel]["files"][fn] = e["data"] + "\n" if fn == "memory.high" else e["data"] + "\n"
+            if fn != "memory.reclaim" and "fault" not in e:
+                w.cg[rel]["files"][fn] = e["data"] + "\n"
             if not m["immediate"]:
                 if fn == "memory.reclaim":
                     v.bad("reclaim-in-classic-mode", "", "tick %d: memory.reclaim written without immediate_backoff" % ti)
